@@ -1,10 +1,11 @@
 (* Extraction of the C10 section-layout model (ExtrOcamlBasic only; numbers stay Coq's positive/Z datatypes). *)
 From Coq Require Extraction ExtrOcamlBasic.
-From Verif Require Import Sections.SectionModel Sections.ChunkModel Sections.JitReloc.
+From Verif Require Import Sections.SectionModel Sections.ChunkModel Sections.JitReloc Sections.FlagsModel.
 Extraction Blacklist List String Int.
 Extraction "sections.ml" SectionModel.init_holder SectionModel.new_section SectionModel.section_by_name SectionModel.by_id
   SectionModel.update_id SectionModel.set_sizes SectionModel.flatten SectionModel.flatten_mid SectionModel.flatten_pinned SectionModel.code_size
   SectionModel.code_size_pinned SectionModel.copy_flat SectionModel.copy_section SectionModel.emit_call
   SectionModel.relocate_tail SectionModel.real_size SectionModel.jit_add SectionModel.new_section_cstr SectionModel.section_by_name_cstr
   ChunkModel.copy_flat_c ChunkModel.copy_section_c ChunkModel.jit_add_c ChunkModel.flat
-  JitReloc.emit_call_bytes JitReloc.emit_abs_bytes JitReloc.relocate_holder JitReloc.jit_add_reloc.
+  JitReloc.emit_call_bytes JitReloc.emit_abs_bytes JitReloc.emit_zero_bytes JitReloc.relocate_holder JitReloc.jit_add_reloc
+  FlagsModel.add_flags FlagsModel.clear_flags FlagsModel.clear_flags_pinned FlagsModel.has_flag.
